@@ -52,7 +52,9 @@ func connPkgs(path string) bool {
 // passed in or a count obtained from the writer it delegates to. A Write that
 // succeeds with a smaller count makes io.Copy / io.MultiWriter abort the stream
 // with ErrShortWrite.
-func c01WriteCounts(w *World, r *Report) {
+func c01WriteCounts(w *World, r *Report) { c01WriteCountsRule(w, r, "R01.6") }
+
+func c01WriteCountsRule(w *World, r *Report, rule string) {
 	var fns []*ssa.Function
 	for fn := range allModuleFuncs(w, w.SSA()) {
 		obj := fnObj(fn)
@@ -106,10 +108,10 @@ func c01WriteCounts(w *World, r *Report) {
 			bad = fmt.Sprintf("%s: on success the count reported is not len() of the caller's buffer (nor a delegated writer's count): %s", w.Pos(ret.Pos()), cv.String())
 		})
 		if n == 0 {
-			r.Hold("R01.6", key, w.Pos(fn.Pos()), "delegates count and error to an inner writer")
+			r.Hold(rule, key, w.Pos(fn.Pos()), "delegates count and error to an inner writer")
 			continue
 		}
-		r.Check(bad == "", "R01.6", key, w.Pos(fn.Pos()), fmt.Sprintf("%d success return(s) report len(p) of the buffer as passed", n), bad)
+		r.Check(bad == "", rule, key, w.Pos(fn.Pos()), fmt.Sprintf("%d success return(s) report len(p) of the buffer as passed", n), bad)
 	}
 }
 
